@@ -433,12 +433,12 @@ type macroCheck struct {
 	class string
 }
 
-// evalCheck runs a kase and reports (bad, expected, got).
+// evalMacroKase runs a kase straight-line in fresh runtimes and reports (bad, expected, got).
 func evalMacroKase(k kase) (bad bool, expected, got string) {
 	switch k.Check {
 	case "call=eval-expansion", "call=model-expansion", "expand1-fixpoint=macroexpand", "expand1=model-expansion":
 		ra, rb := runFresh(k.A), runFresh(k.B)
-		return ra.key() != rb.key(), rb.full(), ra.full()
+		return ra.key() != rb.key() || ra.isPanic(), rb.full(), ra.full()
 	case "binding-fails", "arg-eval-count":
 		return judgeSingle(k, runFresh(k.A))
 	}
@@ -447,6 +447,9 @@ func evalMacroKase(k kase) (bad bool, expected, got string) {
 
 // judgeSingle decides the checks that look at one program's result only.
 func judgeSingle(k kase, ra result) (bad bool, expected, got string) {
+	if ra.isPanic() {
+		return true, "no Go panic", ra.full()
+	}
 	sevens := 0
 	for _, ln := range strings.Split(ra.Out, "\n") {
 		if ln == "7" {
@@ -555,6 +558,9 @@ func runMacroSpace(r *core.Run, s *macroSpace) {
 				if ra.key() != rb.key() {
 					bad, expected, got = true, rb.full(), ra.full()
 				}
+			}
+			if ra.isPanic() && !bad {
+				bad, expected, got = true, "no Go panic", ra.full()
 			}
 			r.AddTransitions(1)
 			if k.Check == "call=eval-expansion" {
